@@ -2,26 +2,90 @@
 
 Monitor: differential against (a) a Python big-int model of C conversion and
 (b) for in-range inputs the value gcc prints for `(T)x`.  ASan/UBSan backend.
+
+Every value is cast through the pure-Python FFI with a type string (primary)
+and through the other equivalent entry points (ctype object, _cffi_backend.cast,
+the C-implemented FFI class with its own type parser, a compiled module's
+ffi); the child reports every entry whose result differs from the primary one
+and the parent judges it against the model.
 """
-import math, struct
-from vlib import gen, cc, core
+import math, struct, os, sys
+from vlib import gen, cc, core, modbuild
 
 RULE = ("cases = (target type T, source kind, value); kinds: int (boundary lattice of every "
-        "width up to 2**130 + random), finite float (edges, near 2**k, random bit patterns), "
-        "bool, 1-byte bytes, 1-char str, pointer/array/function cdata at random addresses; "
+        "width up to 2**130 + random + huge 2**200..2**13000), int/float subclass instances, "
+        "finite float (edges, near 2**k, random bit patterns), "
+        "bool, 1-byte bytes, 1-char str, pointer/array/function cdata at random addresses and of "
+        "many pointer ctypes, owned / from_buffer / gc / handle / callback / addressof cdata with "
+        "their real addresses, API-mode lib functions; T also as alias spellings and typedef names; "
+        "entry points py-FFI(str), py-FFI(ctype), _cffi_backend.cast, C-FFI(str), C-FFI(ctype), "
+        "compiled module ffi; "
         "distinct = distinct (T, kind, value); non-trivial = value outside [-1,1] or non-int kind")
 ASSUMPTIONS = ["plain 'char' cdata is a character: int() gives its byte value 0..255 (cffi's documented "
                "character semantics), wchar_t is signed as the compiler says",
-               "gcc's implementation-defined narrowing (modulo 2**N) is the C conversion meant by the statement"]
+               "gcc's implementation-defined narrowing (modulo 2**N) is the C conversion meant by the statement",
+               "every entry point that reaches do_cast (FFI.cast of the Python and of the C-implemented "
+               "FFI class, with a string or a ctype object, and _cffi_backend.cast) is 'ffi.cast'",
+               "an API-mode lib function (builtin, cffi's own test_recompiler casts it to intptr_t) is a "
+               "function source whose address is that of ffi.addressof(lib, name); it is only judged "
+               "for non-_Bool T (the statement speaks of function *cdata*)",
+               "'and back' of the pointer round trip includes going back from int(result) (a possibly "
+               "negative Python int), reported under its own mechanism ptr-roundtrip:pyint"]
 
 TYPES = gen.INT_TYPES + [('_Bool', 1, False)] + \
     [('char', 1, False), ('wchar_t', 4, True), ('char16_t', 2, False), ('char32_t', 4, False)]
 
+# other spellings of the same types (both type parsers accept them) and
+# typedef names (py-FFI: cdef; C-FFI: the compiled module's ffi)
+ALIASES = [('unsigned', 4, False), ('signed', 4, True), ('long int', 8, True),
+           ('unsigned long int', 8, False), ('short int', 2, True),
+           ('unsigned short int', 2, False), ('long long int', 8, True),
+           ('unsigned long long int', 8, False), ('signed int', 4, True),
+           ('signed long', 8, True), ('long unsigned', 8, False), ('signed short', 2, True),
+           ('long signed int', 8, True), ('long long unsigned int', 8, False),
+           ('const int', 4, True), ('volatile unsigned char', 1, False), ('char const', 1, False),
+           ('bool', 1, False)]
+TYPEDEFS = [('c04_u16', 'unsigned short', 2, False), ('c04_i32', 'int', 4, True),
+            ('c04_u64', 'unsigned long long', 8, False), ('c04_i8', 'signed char', 1, True),
+            ('c04_bool', '_Bool', 1, False), ('c04_wc', 'wchar_t', 4, True),
+            ('c04_ch', 'char', 1, False), ('c04_iptr', 'intptr_t', 8, True),
+            ('c04_uptr', 'uintptr_t', 8, False), ('c04_c16', 'char16_t', 2, False)]
+BOOL_TYPES = ('_Bool', 'bool', 'c04_bool')
+IPTR_TYPES = ('intptr_t', 'uintptr_t', 'c04_iptr', 'c04_uptr')
+
+CDEF_COMMON = "struct c04_s { int a; long b; };\n" + \
+    ''.join('typedef %s %s;\n' % (base, name) for name, base, _, _ in TYPEDEFS)
+CDEF_FUNCS = "int c04_f1(int); long c04_f2(void); int c04_f3(struct c04_s);\n"
+MOD_SOURCE = ("#include <stdint.h>\n#include <stddef.h>\n#include <wchar.h>\n#include <uchar.h>\n"
+              + CDEF_COMMON +
+              "int c04_f1(int x) { return x * 3 + 1; }\n"
+              "long c04_f2(void) { return 424242; }\n"
+              "int c04_f3(struct c04_s s) { return s.a + 7; }\n")
+LIBFNS = {'c04_f1': 'int(*)(int)', 'c04_f2': 'long(*)(void)', 'c04_f3': 'int(*)(struct c04_s)'}
+
+ENTRIES_ALL = ['py', 'pyct', 'be', 'c', 'cct', 'mod']     # 'py' is the primary one
+ENTRIES_TYPEDEF = ['py', 'pyct', 'be', 'mod']             # the bare C FFI has no typedefs
+
+PTR_TYPES = ['void *', 'char *', 'const char *', 'struct c04_s *', 'int **', 'int(*)[3]',
+             'long(*)(void)', 'void(*)(int, ...)', 'int[3]', 'struct c04_s[2]', 'unsigned char[1]',
+             'void **', 'c04_u64 *', 'FILE *']
+OWN_KINDS = ['null', 'new_long', 'new_struct', 'new_structarr', 'new_chararr', 'addressof_field',
+             'addressof_elem', 'addressof_struct', 'from_buffer', 'from_buffer_typed', 'handle',
+             'callback', 'ptr_arith', 'gc', 'gc_owned', 'mod_new', 'fn_addr1', 'fn_addr2',
+             'fn_addr3', 'new_allocator', 'cast_of_own', 'deref_ptrptr']
+# sources outside the statement (non-finite floats, wrong lengths, wrong types, failing
+# __int__): no oracle on the outcome, they only drive the error paths under the sanitizers
+HOSTILE = ['inf', '-inf', 'nan', 'empty_str', 'str2', 'str_long', 'empty_bytes', 'bytes2',
+           'none', 'list', 'complex', 'int_raises', 'int_returns_str', 'bytearray1', 'struct_cdata',
+           'float_cdata_inf']
+PTR_KINDS = ('ptr', 'fnptr', 'array', 'ptrT', 'own', 'libfn')
+HUGE_BITS = (200, 521, 1000, 4096, 13000)     # < 4300 decimal digits (json / int->str limit)
+
 
 def model(T, size, signed, kind, v):
-    if kind == 'int':
+    if kind in ('int', 'intsub'):
         x = v
-    elif kind == 'float':
+    elif kind in ('float', 'floatsub'):
         x = int(v)  # trunc toward zero
     elif kind == 'bool':
         x = 1 if v else 0
@@ -29,10 +93,10 @@ def model(T, size, signed, kind, v):
         x = v
     elif kind == 'str':
         x = v
-    elif kind in ('ptr', 'fnptr', 'array'):
+    elif kind in PTR_KINDS:
         x = v
-    if T == '_Bool':
-        if kind == 'float':
+    if T in BOOL_TYPES:
+        if kind in ('float', 'floatsub'):
             return 1 if v != 0 else 0
         return 1 if x != 0 else 0
     bits = 8 * size
@@ -42,9 +106,52 @@ def model(T, size, signed, kind, v):
     return x
 
 
+def _huge_ints(rng, lo, hi, n):
+    out = []
+    for k in HUGE_BITS:
+        for d in (-1, 0, 1, hi, lo, hi + 1, 0x5a5a5a5a5a5a5a5a5a):
+            out.append((1 << k) + d)
+            out.append(-(1 << k) + d)
+    for _ in range(n):
+        v = rng.getrandbits(rng.choice(HUGE_BITS) + rng.randrange(0, 64))
+        out.append(-v if rng.random() < 0.5 else v)
+    return out
+
+
+def _pointer_vals(rng, n, full):
+    vals = []
+    addrs = [0, 1, 8, 0x7fffffff, 0x80000000, 0xffffffff, 0x100000000, (1 << 47) - 8,
+             (1 << 63) - 1, 1 << 63, (1 << 64) - 1, (1 << 64) - 8]
+    rnd = [rng.getrandbits(rng.choice([16, 32, 48, 64])) for _ in range(n)]
+    if full:
+        for a in addrs + rnd:
+            vals.append((rng.choice(['ptr', 'ptr', 'fnptr']), a))
+        vals.append(('array', 0))
+        vals.append(('array', 1))
+    for pt in PTR_TYPES:
+        for a in ([0, 8, (1 << 63) + 16, (1 << 64) - 8] if full else []) + \
+                [rng.choice(addrs), rng.getrandbits(rng.choice([16, 32, 48, 64]))]:
+            vals.append(('ptrT', [pt, a]))
+    for o in OWN_KINDS:
+        vals.append(('own', o))
+    for f in sorted(LIBFNS):
+        vals.append(('libfn', f))
+    for h in HOSTILE:
+        vals.append(('hostile', h))
+    return vals
+
+
 def generate(ctx):
     rng = ctx.rng('gen')
     nrand = ctx.scale(40, 1500)
+    # helper API-mode module: lib functions (builtin sources), typedef names for
+    # the C-implemented FFI, and that FFI itself as an entry point
+    d = os.path.join(ctx.tmp, 'mod')
+    spec = {'name': '_c04mod', 'kind': 'api', 'cdef': CDEF_COMMON + CDEF_FUNCS,
+            'source': MOD_SOURCE, 'dir': d}
+    res = modbuild.build_modules(ctx, [spec])['_c04mod']
+    if not res['ok']:
+        raise core.Inconclusive('helper module build failed: ' + res['error'] + res.get('log', ''))
     cases = []
     for (T, size, signed) in TYPES:
         lo, hi = gen.int_range(size, signed)
@@ -53,11 +160,15 @@ def generate(ctx):
             vals.append(('int', v))
         for _ in range(nrand):
             vals.append(('int', gen.rand_int(rng)))
+        for v in _huge_ints(rng, lo, hi, 10 + nrand // 4):
+            vals.append(('int', v))
+        for v in gen.small_lattice(lo, hi) + _huge_ints(rng, lo, hi, 2)[::7]:
+            vals.append(('intsub', v))
         fl = list(gen.FLOAT_EDGES)
         for k in list(range(0, 70)) + [100, 127, 200, 1000]:
-            for d in (-1.0, -0.5, 0.0, 0.5, 1.0):
-                fl.append(math.ldexp(1.0, k) + d)
-                fl.append(-math.ldexp(1.0, k) + d)
+            for d_ in (-1.0, -0.5, 0.0, 0.5, 1.0):
+                fl.append(math.ldexp(1.0, k) + d_)
+                fl.append(-math.ldexp(1.0, k) + d_)
             fl.append(math.nextafter(math.ldexp(1.0, k), 0))
             fl.append(math.nextafter(math.ldexp(1.0, k), math.inf))
         for _ in range(nrand):
@@ -65,6 +176,10 @@ def generate(ctx):
         for x in fl:
             if x == x and x not in (math.inf, -math.inf):
                 vals.append(('float', x.hex()))
+        for x in [0.0, -0.0, -0.5, -1.5, 2.5, 1e-300, -1e300, float(hi) + 0.5, float(lo) - 0.5,
+                  float(hi) * 2 + 3.5, 2.0 ** 64 + 4096.0] + [gen.rand_double(rng) for _ in range(6)]:
+            if x == x and x not in (math.inf, -math.inf):
+                vals.append(('floatsub', x.hex()))
         vals.append(('bool', True))
         vals.append(('bool', False))
         for b in range(256):
@@ -73,20 +188,37 @@ def generate(ctx):
                0x10000, 0x10ffff] + [rng.randrange(0x110000) for _ in range(20 + nrand // 10)]
         for c in cps:
             vals.append(('str', c))
-        addrs = [0, 1, 8, 0x7fffffff, 0x80000000, 0xffffffff, 0x100000000, (1 << 47) - 8,
-                 (1 << 63) - 1, 1 << 63, (1 << 64) - 1, (1 << 64) - 8] + \
-                [rng.getrandbits(rng.choice([16, 32, 48, 64])) for _ in range(20 + nrand // 10)]
-        for a in addrs:
-            vals.append((rng.choice(['ptr', 'ptr', 'fnptr']), a))
-        vals.append(('array', 0))
-        vals.append(('array', 1))
+        vals.extend(_pointer_vals(rng, 20 + nrand // 10, True))
         # split into chunks so that shards balance
         for i in range(0, len(vals), 400):
-            cases.append({'T': T, 'size': size, 'signed': signed, 'vals': vals[i:i + 400]})
+            cases.append({'T': T, 'size': size, 'signed': signed, 'vals': vals[i:i + 400],
+                          'entries': ENTRIES_ALL})
+    # alias spellings and typedef names: reduced value set, all entry points
+    for (T, size, signed, entries) in [(a[0], a[1], a[2], ENTRIES_ALL) for a in ALIASES] + \
+            [(t[0], t[2], t[3], ENTRIES_TYPEDEF) for t in TYPEDEFS]:
+        lo, hi = gen.int_range(size, signed)
+        vals = [('int', v) for v in gen.small_lattice(lo, hi)]
+        vals += [('int', gen.rand_int(rng)) for _ in range(10)]
+        vals += [('int', v) for v in _huge_ints(rng, lo, hi, 2)[::5]]
+        for x in [0.0, -0.0, 0.5, -0.5, -1.5, 2.5, 1e-300, 1e300, float(hi), float(hi) + 1.5,
+                  float(lo) - 1.5, 2.0 ** 63, -2.0 ** 63 - 2048.0, 2.0 ** 64 + 4096.0] + \
+                [gen.rand_double(rng) for _ in range(12)]:
+            if x == x and x not in (math.inf, -math.inf):
+                vals.append(('float', x.hex()))
+        vals += [('bool', True), ('bool', False)]
+        vals += [('bytes', b) for b in (0, 1, 0x7f, 0x80, 0xff, rng.randrange(256))]
+        vals += [('str', c) for c in (0, 0x41, 0xff, 0x100, 0xffff, 0x10000, 0x10ffff,
+                                      rng.randrange(0x110000))]
+        vals.extend(_pointer_vals(rng, 0, False))
+        cases.append({'T': T, 'size': size, 'signed': signed, 'vals': vals, 'entries': entries,
+                      'alias': True})
     # gcc oracle for in-range inputs: (T)x
     units = []
     for ci, c in enumerate(cases):
         stm = []
+        if c.get('alias'):
+            units.append((ci, '', ''))
+            continue
         for vi, (kind, v) in enumerate(c['vals']):
             if kind == 'int' and -(1 << 63) <= v < (1 << 64):
                 lit = ('%dULL' % v) if v >= (1 << 63) else \
@@ -116,27 +248,175 @@ def generate(ctx):
         if isinstance(r, dict):
             raise core.Inconclusive('gcc probe failed: ' + r['error'][:300])
         c['gcc'] = {int(l.split()[0]): int(l.split()[1]) for l in r}
-    return None, cases
+    return {'dir': d}, cases
+
+
+def replay_setup(ctx, case):
+    d = os.path.join(ctx.tmp, 'mod')
+    spec = {'name': '_c04mod', 'kind': 'api', 'cdef': CDEF_COMMON + CDEF_FUNCS,
+            'source': MOD_SOURCE, 'dir': d}
+    res = modbuild.build_modules(ctx, [spec])['_c04mod']
+    if not res['ok']:
+        raise core.Inconclusive('helper module build failed: ' + res['error'] + res.get('log', ''))
+    return {'dir': d}
 
 
 def child_setup(setup, wd):
     import _cffi_backend, ctypes
     from cffi import FFI
+    sys.path.insert(0, setup['dir'])
+    import _c04mod
     ffi = FFI()
-    return {'ffi': ffi, 'keep': [], 'ctypes': ctypes}
+    ffi.cdef(CDEF_COMMON)
+    cffi_ = _cffi_backend.FFI()
+    mffi, lib = _c04mod.ffi, _c04mod.lib
+
+    class IntSub(int):
+        pass
+
+    class FloatSub(float):
+        pass
+    # entry point -> (callable, how its type argument is made from the type string)
+    entries = {
+        'py': (ffi.cast, lambda T: T),
+        'pyct': (ffi.cast, ffi.typeof),
+        'be': (_cffi_backend.cast, ffi.typeof),
+        'c': (cffi_.cast, lambda T: T),
+        'cct': (cffi_.cast, cffi_.typeof),
+        'mod': (mffi.cast, lambda T: T),
+    }
+    return {'ffi': ffi, 'cffi': cffi_, 'mffi': mffi, 'lib': lib, 'keep': [], 'ctypes': ctypes,
+            'IntSub': IntSub, 'FloatSub': FloatSub, 'entries': entries}
+
+
+def _addr_of(ffi, p):
+    """Address held by a pointer/array/function cdata, read from memory after
+    storing it into a void*[1] (does not go through cast)."""
+    box = ffi.new('void *[1]', [p])
+    return struct.unpack('N', bytes(ffi.buffer(box)))[0]
+
+
+def _make_own(st, name):
+    """-> (source cdata, keepalive, fnptr type or None, expected call result or None)"""
+    ffi, mffi, lib = st['ffi'], st['mffi'], st['lib']
+    if name == 'null':
+        return ffi.NULL, None
+    if name == 'new_long':
+        return ffi.new('long *', 5), None
+    if name == 'new_struct':
+        return ffi.new('struct c04_s *'), None
+    if name == 'new_structarr':
+        return ffi.new('struct c04_s[]', 3), None
+    if name == 'new_chararr':
+        return ffi.new('char[]', b'hello'), None
+    if name == 'addressof_field':
+        s = ffi.new('struct c04_s *')
+        return ffi.addressof(s, 'b'), s
+    if name == 'addressof_elem':
+        a = ffi.new('int[4]')
+        return ffi.addressof(a, 2), a
+    if name == 'addressof_struct':
+        s = ffi.new('struct c04_s *')
+        return ffi.addressof(s[0]), s
+    if name == 'from_buffer':
+        b = bytearray(24)
+        return ffi.from_buffer(b), b
+    if name == 'from_buffer_typed':
+        b = bytearray(24)
+        return ffi.from_buffer('int[]', b), b
+    if name == 'handle':
+        o = object()
+        return ffi.new_handle(o), o
+    if name == 'callback':
+        return ffi.callback('int(int)', lambda x: x * 3 + 1), None
+    if name == 'ptr_arith':
+        a = ffi.new('short[10]')
+        return a + 7, a
+    if name == 'gc':
+        return ffi.gc(ffi.cast('char *', 0x123450), lambda p: None), None
+    if name == 'gc_owned':
+        a = ffi.new('long[2]')
+        return ffi.gc(a, lambda p: None), a
+    if name == 'mod_new':
+        return mffi.new('struct c04_s *'), None
+    if name in ('fn_addr1', 'fn_addr2', 'fn_addr3'):
+        return mffi.addressof(lib, 'c04_f' + name[-1]), None
+    if name == 'new_allocator':
+        return ffi.new_allocator(should_clear_after_alloc=False)('int[5]'), None
+    if name == 'cast_of_own':
+        a = ffi.new('long[3]')
+        return ffi.cast('unsigned char *', a), a
+    if name == 'deref_ptrptr':
+        a = ffi.new('int[2]')
+        pp = ffi.new('int *[1]', [a + 1])
+        return pp[0], (a, pp)
+    raise ValueError(name)
+
+
+_NOSRC = object()
+
+
+def _make_hostile(st, name):
+    ffi = st['ffi']
+    if name in ('inf', '-inf', 'nan'):
+        return float(name)
+    if name == 'float_cdata_inf':
+        return ffi.cast('double', float('inf'))
+    if name == 'struct_cdata':
+        return ffi.new('struct c04_s *')[0]
+
+    class IntRaises(object):
+        def __int__(self):
+            raise KeyError('c04')
+
+    class IntReturnsStr(object):
+        def __int__(self):
+            return 'x'
+    return {'empty_str': '', 'str2': 'ab', 'str_long': '\U0010ffff' * 3000, 'empty_bytes': b'',
+            'bytes2': b'ab', 'none': None, 'list': [1], 'complex': 1j, 'int_raises': IntRaises(),
+            'int_returns_str': IntReturnsStr(), 'bytearray1': bytearray(b'a')}[name]
+
+
+def _call_through(ffi, fp, which):
+    if which == 1:
+        return fp(5) == 16
+    if which == 2:
+        return fp() == 424242
+    s = ffi.new('struct c04_s *', [35, 0])
+    return fp(s[0]) == 42
 
 
 def child_case(st, case):
-    ffi = st['ffi']
+    ffi, cffi_ = st['ffi'], st['cffi']
     T = case['T']
+    ents = case.get('entries') or ['py']
+    alts = [e for e in ents if e != 'py']
+    entries = {}
+    entry_exc = {}
+    for e in alts:
+        fn, mk = st['entries'][e]
+        try:
+            entries[e] = (fn, mk(T))
+        except Exception as ex:      # the type itself is not accepted through this entry
+            entry_exc[e] = ['exc', type(ex).__name__, str(ex)[:100]]
     out = []
-    for kind, v in case['vals']:
+    altbad = []
+    nalt = {}
+    rot = sum(T.encode()) if alts else 0
+    for vi, (kind, v) in enumerate(case['vals']):
         addr = None
+        callable_as = None     # (fnptr type, which function) for sources that can be called
+        src_ptype = None
+        src = _NOSRC
         try:
             if kind == 'int':
                 src = v
+            elif kind == 'intsub':
+                src = st['IntSub'](v)
             elif kind == 'float':
                 src = float.fromhex(v)
+            elif kind == 'floatsub':
+                src = st['FloatSub'](float.fromhex(v))
             elif kind == 'bool':
                 src = v
             elif kind == 'bytes':
@@ -151,31 +431,116 @@ def child_case(st, case):
                 src = ffi.new('int[]', 3) if v else ffi.new('char[5]')
                 ct = st['ctypes']
                 addr = ct.addressof(ct.c_char.from_buffer(ffi.buffer(src)))
+            elif kind == 'ptrT':
+                src = ffi.cast(v[0], v[1])
+                if v[0].endswith('*') or '(*)' in v[0]:
+                    src_ptype = v[0]
+            elif kind == 'own':
+                src, keep = _make_own(st, v)
+                addr = _addr_of(ffi, src)
+                if v == 'callback':
+                    callable_as = ('int(*)(int)', 1)
+                elif v.startswith('fn_addr'):
+                    callable_as = (LIBFNS['c04_f' + v[-1]], int(v[-1]))
+            elif kind == 'hostile':
+                src = _make_hostile(st, v)
+            elif kind == 'libfn':
+                src = getattr(st['lib'], v)
+                addr = _addr_of(ffi, st['mffi'].addressof(st['lib'], v))
+                callable_as = (LIBFNS[v], int(v[-1]))
             r = ffi.cast(T, src)
             res = ['ok', int(r)]
-            if kind in ('ptr', 'fnptr', 'array') and T in ('intptr_t', 'uintptr_t'):
+            if kind in PTR_KINDS and T in IPTR_TYPES:
                 back = ffi.cast('void *', r)
                 res.append(back == ffi.cast('void *', src))
                 res.append(int(ffi.cast('uintptr_t', back)))
+                routes = {}
+                todo = [('voidp', lambda: ffi.cast('void *', r)),
+                        ('pyint', lambda: ffi.cast('void *', int(r))),
+                        ('pyint_charp', lambda: cffi_.cast('char *', int(r))),
+                        ('c_voidp', lambda: cffi_.cast('void *', r)),
+                        ('src_to_voidp', lambda: ffi.cast('void *', src))]
+                if src_ptype:
+                    todo.append(('ptype', lambda: ffi.cast(src_ptype, r)))
+                if callable_as:
+                    todo.append(('fntype', lambda: ffi.cast(callable_as[0], r)))
+                    todo.append(('fntype_pyint', lambda: st['mffi'].cast(callable_as[0], int(r))))
+                for name, fn in todo:
+                    try:
+                        b = fn()
+                        routes[name] = _addr_of(ffi, b)
+                        # (only call through it when it is the right address)
+                        if name.startswith('fntype') and routes[name] == addr:
+                            routes['call_' + name] = bool(_call_through(
+                                st['mffi'] if name == 'fntype_pyint' else ffi, b, callable_as[1]))
+                    except Exception as e:
+                        routes[name] = 'exc:%s: %s' % (type(e).__name__, str(e)[:80])
+                res.append(routes)
         except Exception as e:
             res = ['exc', type(e).__name__, str(e)[:100]]
         if addr is not None:
             res.append({'addr': addr})
         out.append(res)
-    return {'r': out}
+        # the same source object through the other entry points
+        if alts and src is not _NOSRC:
+            if kind == 'int':
+                use = [alts[(vi + rot) % len(alts)]]
+            elif kind in ('float', 'bytes'):
+                # high-volume kinds: one alternate entry for every second value
+                use = [alts[(vi // 2 + rot) % len(alts)]] if (vi + rot) % 2 == 0 else []
+            else:
+                use = alts
+            for e in use:
+                nalt[e] = nalt.get(e, 0) + 1
+                if e in entry_exc:
+                    r2 = entry_exc[e]
+                else:
+                    fn, targ = entries[e]
+                    try:
+                        r2 = ['ok', int(fn(targ, src))]
+                    except Exception as ex:
+                        r2 = ['exc', type(ex).__name__, str(ex)[:100]]
+                if r2[:2] != res[:2]:
+                    altbad.append([vi, e, r2])
+    return {'r': out, 'alt': altbad, 'nalt': nalt}
 
 
 def judge(ctx, setup, case, obs):
     T, size, signed = case['T'], case['size'], case['signed']
+    if case.get('alias'):
+        ctx.count('alias_type_cases')
+    expd = {}
     for vi, ((kind, v), r) in enumerate(zip(case['vals'], obs['r'])):
-        x = float.fromhex(v) if kind == 'float' else v
-        if kind == 'array':
+        if kind == 'hostile':
+            ctx.case((T, kind, v), sample={'T': T, 'kind': kind, 'v': v, 'result': r[:3]})
+            ctx.count('hostile_' + ('returned' if r[0] == 'ok' else 'raised'))
+            continue
+        x = float.fromhex(v) if kind in ('float', 'floatsub') else v
+        if kind in ('array', 'own', 'libfn'):
+            if not isinstance(r[-1], dict) or 'addr' not in r[-1]:
+                ctx.inconclusive('could not build source %s %r: %r' % (kind, v, r[:3]))
+                continue
             x = r[-1]['addr']
-        ctx.case((T, kind, v), nontrivial=not (kind == 'int' and -1 <= v <= 1),
-                 sample={'T': T, 'kind': kind, 'v': v, 'result': r[:2]})
+        elif kind == 'ptrT':
+            x = v[1]
+        key_v = v if not isinstance(v, list) else tuple(v)
+        ctx.case((T, kind, key_v), nontrivial=not (kind == 'int' and -1 <= v <= 1),
+                 sample={'T': T, 'kind': kind, 'v': v if not (kind == 'int' and abs(v) > 1 << 200)
+                         else 'int of %d bits' % v.bit_length(), 'result': r[:2]})
         ctx.count('kind_' + kind)
+        if kind in ('int', 'intsub') and abs(v) >= 1 << 131:
+            ctx.count('huge_ints')
+        if kind == 'own':
+            ctx.count('own_' + v)
+        rd = {'T': T, 'size': size, 'signed': signed, 'vals': [[kind, v]], 'gcc': {},
+              'entries': case.get('entries')}
+        if kind == 'libfn' and T in BOOL_TYPES:
+            # (_Bool) of a builtin lib function: not a function *cdata*, the statement does
+            # not cover it (cffi raises TypeError there); observed, not judged
+            ctx.count('libfn_to_bool_' + ('ok' if r[0] == 'ok' else 'raised_' + str(r[1])))
+            continue
         exp = model(T, size, signed, kind, x)
-        rd = {'T': T, 'size': size, 'signed': signed, 'vals': [[kind, v]], 'gcc': {}}
+        expd[vi] = (exp, kind, v, rd)
         if r[0] != 'ok':
             ctx.violation('cast-raised:%s:%s' % (kind, r[1]),
                           'ffi.cast(%r, <%s %r>) raised %s: %s' % (T, kind, v, r[1], r[2]), rd)
@@ -190,8 +555,34 @@ def judge(ctx, setup, case, obs):
             if g != exp:
                 raise core.Inconclusive('model disagrees with gcc for (%s)%r: model %d gcc %d'
                                         % (T, v, exp, g))
-        if kind in ('ptr', 'fnptr', 'array') and T in ('intptr_t', 'uintptr_t'):
+        if kind in PTR_KINDS and T in IPTR_TYPES:
             ctx.count('ptr_roundtrips')
             if r[2] is not True or r[3] != x:
                 ctx.violation('ptr-roundtrip', 'pointer %#x -> %s -> pointer gave %#x (equal=%r)'
                               % (x, T, r[3], r[2]), rd)
+            for name, got in sorted(r[4].items()):
+                ctx.count('rt_route_' + name)
+                if name.startswith('call_'):
+                    if got is not True:
+                        ctx.violation('ptr-roundtrip:call', 'function %r -> %s -> function pointer: '
+                                      'calling it does not behave as the function' % (v, T), rd)
+                    continue
+                if got != x:
+                    mech = 'ptr-roundtrip:pyint' if 'pyint' in name else 'ptr-roundtrip'
+                    ctx.violation(mech, 'pointer %#x -> %s -> back via route %s gave %s'
+                                  % (x, T, name, hex(got) if isinstance(got, int) else got), rd)
+    for e, n in (obs.get('nalt') or {}).items():
+        ctx.count('entry_' + e, n)
+    for vi, e, r2 in obs.get('alt') or []:
+        if vi not in expd:
+            continue
+        exp, kind, v, rd = expd[vi]
+        rd = dict(rd, entries=['py', e])
+        if r2[0] != 'ok':
+            ctx.violation('cast-raised:%s:%s@%s' % (kind, r2[1], e),
+                          'cast(%r, <%s %r>) through entry point %s raised %s: %s'
+                          % (T, kind, v, e, r2[1], r2[2]), rd)
+        elif r2[1] != exp:
+            ctx.violation('cast-value:%s@%s' % (kind, e),
+                          'int(cast(%r, <%s %r>)) through entry point %s = %d, C conversion gives %d'
+                          % (T, kind, v, e, r2[1], exp), rd)
